@@ -115,6 +115,7 @@ class QSpec:
     zero_rtt: list = field(default_factory=list)     # [[frame-spec,...]] one 0-RTT packet each (own datagram unless zero_rtt_coalesce)
     zero_rtt_before_retry: int = 0                   # with retry: that many of the 0-RTT packets are (also) sent in the first flight, before the Retry
     zero_rtt_coalesce: bool = False                  # first 0-RTT packet shares the datagram of the (last) client Initial
+    zero_rtt_ext: str = ""                           # "" : the hellos carry no early_data extension (as before) | "accepted": ClientHello early_data + pre_shared_key, EncryptedExtensions echo early_data | "rejected": the server's EncryptedExtensions lack it (RFC 8446 4.2.10: the early data is discarded by the server - the client did send it)
     ch_split: tuple = ()          # cut points of ClientHello into CRYPTO frames
     ch_order: tuple = ()          # order in which the CRYPTO frames are sent
     ch_packets: int = 1           # spread over that many Initial packets
@@ -244,11 +245,19 @@ def build_qconn(spec: QSpec, rng) -> QConn:
     tp = b"".join(varint(i) + varint(len(v)) + v for i, v in tps)
     ce = (ext(0, b"\x00\x0e\x00\x00\x0bexample.org") + ext(16, b"\x00\x03\x02h3") + ext(43, b"\x02\x03\x04") +
           ext(51, b"\x00\x24\x00\x1d\x00\x20" + rb(32)) + ext(57, tp))
+    if spec.zero_rtt and spec.zero_rtt_ext:
+        # a client that sends 0-RTT offers early_data and, as the last extension, a pre_shared_key (one identity, one binder)
+        ident = rb(rng.choice([32, 100]))
+        ce += ext(45, b"\x01\x01") + ext(42, b"") + ext(41, (len(ident) + 6).to_bytes(2, "big") + len(ident).to_bytes(2, "big") + ident + rb(4) + (hl + 1).to_bytes(2, "big") + bytes([hl]) + rb(hl))
     offered = b"".join(s.to_bytes(2, "big") for s in spec.offered)
     ch = hs(1, b"\x03\x03" + cr + b"\x00" + len(offered).to_bytes(2, "big") + offered + b"\x01\x00" + len(ce).to_bytes(2, "big") + ce)
     se = ext(43, b"\x03\x04") + ext(51, b"\x00\x1d\x00\x20" + rb(32))
+    if spec.zero_rtt and spec.zero_rtt_ext and (spec.zero_rtt_ext == "accepted" or len(ident) == 32):
+        se += ext(41, b"\x00\x00")       # the server resumes the session (a server may accept the PSK and still refuse the early data)
     sh = hs(2, b"\x03\x03" + rb(32) + b"\x00" + (spec.suite if spec.sh_suite < 0 else spec.sh_suite).to_bytes(2, "big") + b"\x00" + len(se).to_bytes(2, "big") + se)
     ee_ext = ext(16, b"\x00\x03\x02h3") + ext(57, varint(0) + varint(len(odcid)) + odcid)
+    if spec.zero_rtt and spec.zero_rtt_ext == "accepted":
+        ee_ext += ext(42, b"")
     s_hs = hs(8, len(ee_ext).to_bytes(2, "big") + ee_ext) + hs(11, b"\x00" + rb(rng.choice([100, 700, 2000]))) + hs(15, b"\x08\x04\x00\x40" + rb(64)) + hs(20, rb(hl))
     c_fin = hs(20, rb(hl))
 
@@ -646,6 +655,7 @@ def random_qspec(rng, napp=None, avoid=(), bulk=None):
             off += len(data)
         s.zero_rtt_coalesce = rng.random() < 0.4
         s.zero_rtt_before_retry = rng.randrange(0, nz + 1) if s.retry else 0
+        s.zero_rtt_ext = ["", "accepted", "rejected", "accepted"][(nz + len(s.zero_rtt[0][0][2])) % 4]     # (no draw: the stream of random numbers stays as it was)
     s.coalesce_1rtt_with_hs = rng.random() < 0.3
     s.server_half_rtt = rng.random() < 0.3
     s.hs_split = rng.choice([1, 2, 2, 3])
